@@ -42,7 +42,7 @@ EL = {8: "i8", 32: "i32", 64: "i64"}
 def mm_text(M, N, K, kern, layouts=None, gram=False):
     """layouts: optional per-operand TSL text. gram: D = X * X^T, i.e. ONE buffer used as both input operands with different access patterns (needs M == N)"""
     lay = layouts or [None] * 4
-    out_i8 = kern == "rescale"
+    out_i8 = kern in ("rescale", "gemm_rescale")
 
     def ty(shape, w, l):
         return "memref<" + "x".join(map(str, shape)) + "x" + EL[w] + (f", {l}" if l else "") + ', "L1">'
@@ -59,7 +59,7 @@ def mm_text(M, N, K, kern, layouts=None, gram=False):
         args.pop(1)
         maps[1] = "affine_map<(d0, d1, d2) -> (d1, d2)>"
         ins, ins_t = ["%a", "%a"], [ta, ta]
-    if kern == "gemm":
+    if kern in ("gemm", "gemm_rescale"):
         tcc = ty((M, N), 32, lay[3])
         args.append(f"%cc : {tcc}")
         maps.insert(2, "affine_map<(d0, d1, d2) -> (d0, d1)>")
@@ -67,7 +67,7 @@ def mm_text(M, N, K, kern, layouts=None, gram=False):
         ins_t.append(tcc)
         streams.append("%s2 : !dart.stream<i32>")
     streams.append(f"%so : !dart.stream<{'i8' if out_i8 else 'i32'}>")
-    if kern in ("qmac", "rescale", "gemm"):
+    if kern in ("qmac", "rescale", "gemm", "gemm_rescale"):
         pre = "  %z0 = arith.constant 3 : i32\n  %z1 = arith.constant 5 : i32\n"
         g1 = (
             '    %g = "dart.generic"(%s0, %s1, %z0, %z1) <{library_call = "snax_gemmx"}> ({\n    ^bb1(%e0 : i8, %e1 : i8, %e2 : i32, %e3 : i32, %e4 : i32):\n'
@@ -85,6 +85,14 @@ def mm_text(M, N, K, kern, layouts=None, gram=False):
             "      %k2 = kernel.rescale %f0 {input_zp = 0 : i32, output_zp = 0 : i32, multiplier = array<i32: 1>, shift = array<i32: 9>, max_int = 127 : i32, min_int = -128 : i32, double_round = false} : (i32) -> i8\n"
             "      dart.yield %k2 : i8\n    }) : (!dart.stream<i32>) -> !dart.stream<i8>\n    dart.yield %g2 : !dart.stream<i8>\n"
         )
+    elif kern == "gemm_rescale":
+        body += (
+            '    %g2 = "dart.generic"(%g, %s2) <{library_call = "snax_gemmx"}> ({\n    ^bb2(%f0 : i32, %f1 : i32, %f2 : i32):\n'
+            "      %k2 = kernel.add %f0, %f1 : i32, i32 -> i32\n      dart.yield %k2 : i32\n    }) : (!dart.stream<i32>, !dart.stream<i32>) -> !dart.stream<i32>\n"
+            '    %g3 = "dart.generic"(%g2) <{library_call = "snax_gemmx"}> ({\n    ^bb3(%h0 : i32, %h1 : i8):\n'
+            "      %k3 = kernel.rescale %h0 {input_zp = 0 : i32, output_zp = 0 : i32, multiplier = array<i32: 1>, shift = array<i32: 9>, max_int = 127 : i32, min_int = -128 : i32, double_round = false} : (i32) -> i8\n"
+            "      dart.yield %k3 : i8\n    }) : (!dart.stream<i32>) -> !dart.stream<i8>\n    dart.yield %g3 : !dart.stream<i8>\n"
+        )
     elif kern == "gemm":
         body += (
             '    %g2 = "dart.generic"(%g, %s2) <{library_call = "snax_gemmx"}> ({\n    ^bb2(%f0 : i32, %f1 : i32, %f2 : i32):\n'
@@ -98,6 +106,21 @@ def mm_text(M, N, K, kern, layouts=None, gram=False):
         + f"  ^bb0({', '.join(streams)}):\n" + body + "  }) : (" + ", ".join(ins_t + [tc]) + ") -> ()\n  func.return\n}\n}\n"
     )
     return text
+
+
+def simd_text(M, K):
+    """rescale-only use of snax_gemmx: D8 = rescale(C)"""
+    ti, to = f'memref<{M}x{K}xi32, "L1">', f'memref<{M}x{K}xi8, "L1">'
+    m = "affine_map<(d0, d1) -> (d0, d1)>"
+    return (
+        f"builtin.module {{\nfunc.func @f(%m0 : {ti}, %m1 : {to}) {{\n"
+        f'  "dart.operation"(%m0, %m1) <{{patterns = [{m}, {m}], accelerator = "snax_gemmx", operandSegmentSizes = array<i32: 1, 1>}}> ({{\n'
+        "  ^bb0(%s0 : !dart.stream<i32>, %s1 : !dart.stream<i8>):\n"
+        '    %g = "dart.generic"(%s0) <{library_call = "snax_gemmx"}> ({\n    ^bb1(%e0 : i32, %e1 : i8):\n'
+        "      %k = kernel.rescale %e0 {input_zp = 0 : i32, output_zp = 0 : i32, multiplier = array<i32: 1>, shift = array<i32: 9>, max_int = 127 : i32, min_int = -128 : i32, double_round = false} : (i32) -> i8\n"
+        "      dart.yield %k : i8\n    }) : (!dart.stream<i32>) -> !dart.stream<i8>\n    dart.yield %g : !dart.stream<i8>\n"
+        f"  }}) : ({ti}, {to}) -> ()\n  func.return\n}}\n}}\n"
+    )
 
 
 def alu_text(shape, layouts=None, same=False):
@@ -199,8 +222,8 @@ def space(tier):
     S = BOUNDS[tier]["sizes"]
     cases = []
     for M, N, K in itertools.product(S, repeat=3):
-        for kern in ("qmac", "mac", "rescale", "gemm"):
-            if kern in ("mac", "gemm") and (M, N, K).count(8) < 1 and tier == "quick":
+        for kern in ("qmac", "mac", "rescale", "gemm", "gemm_rescale"):
+            if kern in ("mac", "gemm", "gemm_rescale") and (M, N, K).count(8) < 1 and tier == "quick":
                 continue
             for lay in ("tiled", "untiled"):
                 cases.append(("mm", M, N, K, kern, lay, -1))
@@ -220,6 +243,10 @@ def space(tier):
     for n in (8, 16, 40):
         for lay in ("tiled", "untiled", "none"):
             cases.append(("alu2", (n,), lay))
+    # rescale-only use of the gemmx array
+    for M, K in itertools.product(S, repeat=2):
+        for lay in ("tiled", "untiled"):
+            cases.append(("simd", M, K, lay))
     # snax_xdma: kernels handled by a DMA extension
     for kern in ("rdown", "rup", "add"):
         sizes = (16, 32, 48, 64, 80, 128, 256) if tier == "quick" else (16, 32, 48, 64, 128, 192, 256, 512, 1024)
@@ -270,6 +297,10 @@ def evaluate(case) -> CaseResult:
             layouts = list(chosen) + [None]
             layouts[which] = tsl(hand_layouts(*shapes[which], pitchpad=8 if lay == "hand2" else 0)[i])
         text = mm_text(M, N, K, kern, layouts)
+        acc = "snax_gemmx"
+    elif kind == "simd":
+        _, M, K, lay = case
+        text = simd_text(M, K)
         acc = "snax_gemmx"
     elif kind == "xdma":
         _, kern, n, lay = case
